@@ -155,7 +155,7 @@ func genVec(r *Rand, n int, tier string, w *bufio.Writer) {
 		}
 		type ev struct {
 			n, creator, seq, lamport uint64
-			parents              []uint64
+			parents                  []uint64
 		}
 		var all []ev
 		tips := map[uint64][]ev{}
